@@ -249,7 +249,21 @@ fn sites(toks: &[Tok], t: usize) -> Vec<usize> {
                         return false;
                     }
                     if n.kind == TokKind::Symbol && n.text == "(" {
-                        return (p.kind == TokKind::Word && KW.iter().any(|k| p.text.eq_ignore_ascii_case(k))) || sym(p);
+                        // after a keyword or a symbol; and after the first word of a statement that is a SUB call
+                        // with its first argument in parentheses (`Inc (x)` is `Inc(x)`: no `=` follows on the line)
+                        if (p.kind == TokKind::Word && KW.iter().any(|k| p.text.eq_ignore_ascii_case(k))) || sym(p) {
+                            return true;
+                        }
+                        let first_of_statement = (0..*i - 1).rev().find(|j| toks[*j].kind != TokKind::Blank).map(|j| toks[j].kind == TokKind::Eol || (toks[j].kind == TokKind::Symbol && toks[j].text == ":")).unwrap_or(true);
+                        let line_end = (*i..toks.len()).find(|j| toks[*j].kind == TokKind::Eol).unwrap_or(toks.len());
+                        let has_equal = toks[*i..line_end].iter().any(|t| t.kind == TokKind::Symbol && t.text == "=");
+                        // only names the text itself defines as SUBs
+                        let is_user_sub = (0..toks.len()).any(|j| {
+                            toks[j].kind == TokKind::Word
+                                && toks[j].text.eq_ignore_ascii_case("SUB")
+                                && (j + 1..toks.len()).find(|k| toks[*k].kind != TokKind::Blank).map(|k| toks[k].kind == TokKind::Word && toks[k].text.eq_ignore_ascii_case(&p.text)).unwrap_or(false)
+                        });
+                        return p.kind == TokKind::Word && first_of_statement && !has_equal && is_user_sub;
                     }
                     // after ")" only before another symbol: whether `(A + 1)TO 5` needs the blank is not something the
                     // property decides (the implementation wants it unless the whole operand is parenthesised)
